@@ -1,7 +1,7 @@
 """C05 - malformed or hostile message bytes are rejected in bounded work."""
 from typing import Tuple
 
-from ..engine import Spec, assume, check, reached, HarnessError, mkbytes, Violation
+from ..engine import Spec, assume, check, reached, HarnessError, mkbytes, Violation, decode_choice, notrace
 from ..runner import Ob
 
 PROPERTY = 'C05'
@@ -199,6 +199,9 @@ def obligations(tier):
             obs.append(Ob('long:%d:%s:%s' % (i, carrier, ls[:8]), 'long', {'i': i, 'carrier': carrier, 'n': 6},
                           timeout=240, path_timeout=30, twin=(i % 5 == 0), functions=FUNCS,
                           bounds='concrete signature of %d characters, 6 symbolic data bytes' % len(ls)))
+    obs.append(Ob('bulk:copies', 'bulk', {}, timeout=300, path_timeout=120, twin=True, functions=FUNCS,
+                  bounds='valid encodings of 6 large values (2000 elements, 16-48 KB) cut at 4 lengths (symbolic selectors); the '
+                         'input is a byte string that counts the bytes copied out of it by slicing'))
     for n in range(0, (3 if tier == 'quick' else 5) + 1):
         obs.append(Ob('gct:len%d' % n, 'gct', {'n': n}, timeout=300 if n <= 3 else 1500, path_timeout=30, twin=(n > 0),
                       functions=FUNCS[5:6], bounds='symbolic string of length %d, any characters' % n))
@@ -302,6 +305,42 @@ def build(family, p):
         T = Tuple[tuple([int] * n)]
         wit = [tuple([0] * n), tuple([255] * n), tuple([1, 0, 0, 0, 7, 0][:n]), tuple([2, 0, 0, 0, 1, 1][:n])]
         return Spec(h, [('data', T)], witnesses=[(w,) for w in wit])
+
+    if family == 'bulk':
+        from .. import ref_codec
+        N = 2000
+        CASES = [('as', [[''] * N]), ('as', [['ab'] * N]), ('a{ss}', [[['k%d' % i, 'v'] for i in range(N)]]),
+                 ('a(sos)', [[['x', '/p', ''] for i in range(N)]]), ('ao', [['/a'] * N]), ('aas', [[['', 'q']] * (N // 2)])]
+        wires = [ref_codec.encode(sg, vals, 0, True) for sg, vals in CASES]
+
+        class CountingBytes(bytes):
+            copied = 0
+
+            def __getitem__(self, idx):
+                r = bytes.__getitem__(self, idx)
+                if isinstance(idx, slice):
+                    CountingBytes.copied += len(r)
+                return r
+
+        def hb(code):
+            ci, cut = decode_choice(code, [len(CASES), 4])
+            with notrace():
+                sg = CASES[ci][0]
+                wire = wires[ci]
+                data = CountingBytes(wire[:len(wire) - [0, 1, 5, len(wire) // 2][cut]])
+                CountingBytes.copied = 0
+                with Counter(marshal, 40 * N + 64):
+                    try:
+                        marshal.unmarshal(sg, data, 0, True, [])
+                    except Budget:
+                        raise Violation('decoder exceeded its step budget on a large valid value')
+                    except Exception:
+                        pass
+                # every input byte is copied out a bounded number of times: work proportional to the input
+                check(CountingBytes.copied <= 4 * len(data) + 64, 'decoding copied far more bytes than the input has (work not proportional to its length)')
+            reached()
+        hb.__name__ = 'bulk'
+        return Spec(hb, [('code', int)], witnesses=[(0,), (len(CASES) * 4 - 1,), (5,), (10,)])
 
     if family == 'var':
         vsig, n = p['vsig'], p['n']
